@@ -273,7 +273,7 @@ CHECKS = {
     'C07': dict(
         gens=['Ttl'],
         props='ZanVerif.Props.C07',
-        protos=[dict(name='data', mode='oracle', quick_seeds=1, thorough_seeds=1, classes='(batch|engine|replay|packed)-dependent:')],
+        protos=[dict(name='data', mode='oracle', quick_seeds=1, thorough_seeds=1, classes='(batch|engine|replay|packed|restart)-dependent:')],
         rule=DATA_RULE,
         trusted=DATA_TRUST,
         partial=["C07_batch_independent is proved for the abstract model under 'no batchable command fails at apply time'; the failing case is a known finding", 'wall-clock independence of write paths is checked by the raw-byte comparison of shadows run at different instants only'],
